@@ -20,6 +20,7 @@ import (
 	"bytes"
 	"context"
 	"errors"
+	"net/url"
 	"sync"
 	"time"
 
@@ -164,6 +165,13 @@ func (p *provider) watchChanges(ctx context.Context, rsf RuleSetFetcher) error {
 		if !errors.Is(err, config2.ErrEmptyRuleSet) &&
 			(errors.Is(err, heimdall.ErrInternal) || errors.Is(err, heimdall.ErrConfiguration)) {
 			return err
+		}
+
+		// network issues, like dns errors, refused connections, timeouts and alike: the rule
+		// set previously received from the endpoint is preserved
+		var netErr *url.Error
+		if errors.Is(err, heimdall.ErrCommunicationTimeout) || errors.As(err, &netErr) {
+			return nil
 		}
 
 		ruleSet = &config2.RuleSet{
